@@ -11,6 +11,15 @@ def run(d):
     patch = os.path.join(d, "patch_ported_to_later_head.diff")
     if not os.path.exists(patch):
         patch = os.path.join(d, "patch.diff")
+    try:
+        meta = json.load(open(os.path.join(d, "meta.json")))
+    except Exception:
+        meta = {}
+    if meta.get("neutralised_by") and not os.path.exists(os.path.join(d, "patch_ported_to_later_head.diff")):
+        res = {"seeded": name, "property": pid, "patch": "patch.diff", "check_exit": None, "violation_lines": 0, "with_concrete_replay": 0,
+               "verdict": "no longer breaks the property on the current head (neutralised by: %s)" % meta["neutralised_by"], "summary_line": ""}
+        json.dump(res, open(os.path.join(d, "detection.json"), "w"), indent=1)
+        return res
     p = subprocess.run([os.path.join(VERIF, "checks", "mutant_run.sh"), patch, pid], stdout=subprocess.PIPE, stderr=subprocess.STDOUT, timeout=3600)
     out = p.stdout.decode("utf-8", "replace")
     viol = [l for l in out.splitlines() if l.startswith("VIOLATION")]
